@@ -228,7 +228,14 @@ func zzOp(tx *Tx, mask int) error {
 		if pg == nil {
 			return nil
 		}
-		return pg.Put([]byte{'p', zz.U8("pgk")}, zzVal(zzValLen(tx.db.pageSize), 'Q'))
+		n := zzValLen(tx.db.pageSize)
+		if zz.Param("bignested", 0) == 1 && zz.Choose(2) == 1 {
+			// large enough to outgrow the initial map: the commit remaps while only the nested bucket
+			// (none of its ancestors) has materialised nodes
+			zz.Reach("op-put-big-into-paged-nested")
+			n = tx.db.pageSize * 40
+		}
+		return pg.Put([]byte{'p', zz.U8("pgk")}, zzVal(n, 'Q'))
 	case 8:
 		zz.Reach("op-move-nested")
 		// move the paged nested bucket "pg" into the inline bucket "in" or into a bucket created in this
